@@ -50,18 +50,9 @@ Fixpoint select {A} (l : list A) (mask : N) : list A :=
 Definition is_err (s : string) : bool := match s with String "!" _ => true | String "~" _ => true | _ => false end.
 Definition err_code (e : rerr) : string :=
   match e with ENotFound => "!nf" | EUnknownSource => "!unk" | EEmpty => "!empty" end.
-Definition res_ok (r : res) (e : string) : bool :=
-  match r with
-  | Found p => negb (is_err e) && path_eqb p (P e)
-  | Failed x => String.eqb (err_code x) e
-  end.
 Definition res_str (r : res) : string :=
   match r with Found p => tohex (write_require_path p) | Failed x => err_code x end.
-Definition opt_res_ok (r : option res) (e : string) : bool :=
-  match r with Some r => res_ok r e | None => String.eqb e "~" end.
 Definition opt_res_str (r : option res) : string := match r with Some r => res_str r | None => "~" end.
-Definition gen_ok (g : option bytes) (e : string) : bool :=
-  match g with Some g => negb (is_err e) && bytes_eqb g (B e) | None => String.eqb e "~" end.
 Definition gen_str (g : option bytes) : string := match g with Some g => tohex g | None => "~" end.
 Fixpoint paths_eqb (a b : list path) : bool :=
   match a, b with
@@ -73,11 +64,29 @@ Definition strs (l : list path) : string := String.concat " " (map (fun p => toh
 """
 
 PREAMBLE_TAIL = """
-Definition lay_fs (lay mask : N) : fs :=
+(* everything that does not depend on the subset is evaluated once per case (vm_compute is call-by-value) *)
+Definition lay_parts (lay : N) : list path * list path * rc_files :=
   let '(opt, base, rcs) := layout_of lay in
-  mk_fs (select opt mask ++ base ++ map (fun e => join (fst e) [Norm luaurc_name]) rcs).
-Definition lay_rcs (lay : N) : rc_files := let '(_, _, rcs) := layout_of lay in rcs.
-Definition nth_str (t : list string) (k : N) : string := nth (N.to_nat k) t "?".
+  (mk_fs opt, mk_fs (base ++ map (fun e => join (fst e) [Norm luaurc_name]) rcs)%list, rcs).
+Definition fs_at (nopt nbase : list path) (mask : N) : fs := (select nopt mask ++ nbase)%list.
+
+Definition expect := (path + string)%type.
+Definition E (s : string) : expect := if is_err s then inr s else inl (P s).
+Definition res_ok (r : res) (e : expect) : bool :=
+  match r, e with
+  | Found p, inl q => path_eqb p q
+  | Failed x, inr s => String.eqb (err_code x) s
+  | _, _ => false
+  end.
+Definition opt_res_ok (r : option res) (e : expect) : bool :=
+  match r with Some r => res_ok r e | None => match e with inr s => String.eqb s "~" | _ => false end end.
+Definition gen_ok (g : option bytes) (e : bytes + string) : bool :=
+  match g, e with
+  | Some g, inl x => bytes_eqb g x
+  | None, inr s => String.eqb s "~"
+  | _, _ => false
+  end.
+Definition EG (s : string) : bytes + string := if is_err s then inr s else inl (B s).
 
 Inductive tcase :=
 | TR (cfg lay : N) (src lit : string) (table : list string) (codes : list N)
@@ -92,12 +101,26 @@ Fixpoint first_bad {A} (f : N -> A -> bool) (mask : N) (l : list A) : option (N 
   | x :: r => if f mask x then first_bad f (N.succ mask) r else Some (mask, x)
   end.
 
-Definition r_ok cfg lay src lit table (mask code : N) : bool :=
-  res_ok (find_require (cfg_of cfg) (lay_rcs lay) (lay_fs lay mask) (P src) (B lit)) (nth_str table code).
-Definition v_ok cur tgt lay src lit (table : list (string * string * string)) (mask code : N) : bool :=
-  let cv := convert (cfg_of cur) (cfg_of tgt) (lay_rcs lay) (lay_fs lay mask) (P src) (B lit) in
-  let '(ef, eg, er) := nth (N.to_nat code) table ("?", "?", "?") in
-  res_ok (cv_found cv) ef && gen_ok (cv_generated cv) eg && opt_res_ok (cv_refound cv) er.
+Definition r_bad cfg lay src lit (table : list string) codes : option (N * N) :=
+  let c := cfg_of cfg in
+  let '(nopt, nbase, rcs) := lay_parts lay in
+  let s := P src in
+  let l := B lit in
+  let t := map E table in
+  first_bad (fun mask code => res_ok (find_require c rcs (fs_at nopt nbase mask) s l) (nth (N.to_nat code) t (inr "?")))
+            0 codes.
+Definition v_bad cur tgt lay src lit (table : list (string * string * string)) codes : option (N * N) :=
+  let c1 := cfg_of cur in
+  let c2 := cfg_of tgt in
+  let '(nopt, nbase, rcs) := lay_parts lay in
+  let s := P src in
+  let l := B lit in
+  let t := map (fun x => let '(a, b, c) := x in (E a, EG b, E c)) table in
+  first_bad (fun mask code =>
+               let cv := convert c1 c2 rcs (fs_at nopt nbase mask) s l in
+               let '(ef, eg, er) := nth (N.to_nat code) t (inr "?", inr "?", inr "?") in
+               res_ok (cv_found cv) ef && gen_ok (cv_generated cv) eg && opt_res_ok (cv_refound cv) er)
+            0 codes.
 Definition rel_ok (req src rel : string) : bool :=
   match get_relative_path (P req) (P src) true with
   | Some p => negb (is_err rel) && path_eqb p (P rel)
@@ -106,31 +129,32 @@ Definition rel_ok (req src rel : string) : bool :=
 
 Definition check_case (c : tcase) : bool :=
   match c with
-  | TR cfg lay src lit table codes =>
-    match first_bad (r_ok cfg lay src lit table) 0 codes with None => true | Some _ => false end
-  | TV cur tgt lay src lit table codes =>
-    match first_bad (v_ok cur tgt lay src lit table) 0 codes with None => true | Some _ => false end
+  | TR cfg lay src lit table codes => match r_bad cfg lay src lit table codes with None => true | Some _ => false end
+  | TV cur tgt lay src lit table codes => match v_bad cur tgt lay src lit table codes with None => true | Some _ => false end
   | TI p mfn expected => paths_eqb (candidates (P p) (B mfn)) (map P expected)
   | TN p e_false e_true =>
     path_eqb (normalize false (P p)) (P e_false) && path_eqb (normalize true (P p)) (P e_true)
   | TG req src rel written => rel_ok req src rel && bytes_eqb (write_require_path (P req)) (B written)
   end.
 
-Definition n2s (n : N) : string := tohex (dec_digits n).
+Definition n2s (n : N) : string := to_string (dec_digits n).
+Definition nth_str (t : list string) (k : N) : string := nth (N.to_nat k) t "?".
 Definition diag_case (c : tcase) : string :=
   match c with
   | TR cfg lay src lit table codes =>
-    match first_bad (r_ok cfg lay src lit table) 0 codes with
+    match r_bad cfg lay src lit table codes with
     | None => "ok"
     | Some (mask, code) =>
+      let '(nopt, nbase, rcs) := lay_parts lay in
       "R mask=" ++ n2s mask ++ " model=" ++
-      res_str (find_require (cfg_of cfg) (lay_rcs lay) (lay_fs lay mask) (P src) (B lit)) ++ " rust=" ++ nth_str table code
+      res_str (find_require (cfg_of cfg) rcs (fs_at nopt nbase mask) (P src) (B lit)) ++ " rust=" ++ nth_str table code
     end
   | TV cur tgt lay src lit table codes =>
-    match first_bad (v_ok cur tgt lay src lit table) 0 codes with
+    match v_bad cur tgt lay src lit table codes with
     | None => "ok"
     | Some (mask, code) =>
-      let cv := convert (cfg_of cur) (cfg_of tgt) (lay_rcs lay) (lay_fs lay mask) (P src) (B lit) in
+      let '(nopt, nbase, rcs) := lay_parts lay in
+      let cv := convert (cfg_of cur) (cfg_of tgt) rcs (fs_at nopt nbase mask) (P src) (B lit) in
       let '(ef, eg, er) := nth (N.to_nat code) table ("?", "?", "?") in
       "V mask=" ++ n2s mask ++ " model=" ++ res_str (cv_found cv) ++ ";" ++ gen_str (cv_generated cv) ++ ";" ++
       opt_res_str (cv_refound cv) ++ " rust=" ++ ef ++ ";" ++ eg ++ ";" ++ er
@@ -298,6 +322,9 @@ def documented_target(cfg, layout, src, lit):
                 project = cfg["project"] if cfg["project"] is not None else src_dir
                 loc = pjoin(project, cfg["sources"][first])
             if loc is None:
+                if cfg["luau"] and not first.startswith("@"):
+                    # documented as an alias lookup, implemented as a plain working-directory path: not decided here
+                    raise Unspecified()
                 return ("err", "unk")
             full = pjoin(loc, rest) if rest else loc
     norm = lexical(full)
@@ -357,6 +384,8 @@ KNOWN_CLASSES = {
     "luau-alias-without-at@luau_path_locator.rs:find_require_path":
         "the luau mode ignores configured aliases whose name does not start with `@` (documented as allowed)",
     # resolution
+    "alias-collapsed-by-normalize@match_require.rs:match_path_require_call":
+        "the require string is normalised before the alias/@self lookup, so `@alias/../x` loses its alias component",
     "path-luaurc-precedence@path_require_mode.rs:get_source":
         "the path mode looks in `sources` before the .luaurc aliases (documented the other way round)",
     "luau-toplevel-init-parent@luau_path_locator.rs:find_require_path":
@@ -483,7 +512,10 @@ def run(ctx):
                        "documented_resolution": expect if expect is not None else "error"}
             root, parts = split_components(lit)
             first = parts[0] if parts else ""
-            if cfg["luau"] and not root and first not in (".", "..") and not first.startswith("@"):
+            nroot, nparts = split_components(lexical(lit) or "")
+            if not root and first not in (".", "..") and (not nparts or nparts[0] != first):
+                note(res_dev, "alias-collapsed-by-normalize@match_require.rs:match_path_require_call", witness)
+            elif cfg["luau"] and not root and first not in (".", "..") and not first.startswith("@"):
                 note(res_dev, "luau-alias-without-at@luau_path_locator.rs:find_require_path", witness)
             elif (not cfg["luau"]) and cfg["rc"] and first in cfg["sources"] and first.startswith("@"):
                 note(res_dev, "path-luaurc-precedence@path_require_mode.rs:get_source", witness)
